@@ -13,7 +13,7 @@ sys.path.insert(0, "/verif/tools")
 from seed_table import SEEDS
 
 ROOT = "/verif/seeded"
-EXTRA_CHECKS = {"C17": ["C17", "C18"], "C18": ["C18", "C17"]}
+EXTRA_CHECKS = {"C17": ["C17", "C18"], "C18": ["C18", "C17"], "C33": ["C33", "C22"]}
 
 
 def sh(cmd, **kw):
